@@ -1,4 +1,4 @@
-From BB Require Import Base Ref TapeModel InstrsModel MachineModel ReasonModel.
+From BB Require Import Base Ref TapeModel InstrsModel MachineModel ReasonModel SegmentModel.
 From BB.Properties Require Import C15.
 
 Check C15_for_upto_mono : forall (St Rs : Type) (body : St -> St + Rs) n m s r,
@@ -11,3 +11,7 @@ Check C15_bw_mono : forall sw comp d d', d <= d' ->
   (cant_halt_sw sw comp d <> Ok BwStepLimit -> cant_halt_sw sw comp d' = cant_halt_sw sw comp d) /\
   (cant_blank_sw sw comp d <> Ok BwStepLimit -> cant_blank_sw sw comp d' = cant_blank_sw sw comp d) /\
   (cant_spin_out_sw sw comp d <> Ok BwStepLimit -> cant_spin_out_sw sw comp d' = cant_spin_out_sw sw comp d).
+Check C15_seg_mono : forall prog params goal s s',
+  2 <= s -> s <= s' ->
+  sg_segment_cant_reach prog params s goal <> Ok SgrSegmentLimit ->
+  sg_segment_cant_reach prog params s' goal = sg_segment_cant_reach prog params s goal.
